@@ -756,6 +756,40 @@ func rulePQMap(c *Ctx, r *R) {
 			good = fromMap && underOK && dels[0].Call.Args[1] == ssa.Value(fn.Params[1]) && ras[0].Block().Dominates(dels[0].Block())
 		}
 		r.ok(good, "xheap.PriorityQueue.Remove|index-from-map-then-delete", fn.Pos(), "Remove must remove at the index recorded for k (only when present) and then delete k")
+		// ... on every path: whatever takes an item out of the inner heap (RemoveAt, or a Pop on a "k is the minimum" fast
+		// path) is followed by delete(m, k) before Remove returns - otherwise Contains(k) stays true and a later Update(k)
+		// overwrites whichever item sits at the stale index
+		{
+			pfr := &PF{N: 3} // 0 nothing removed, 1 removed and key still mapped, 2 key deleted
+			pfr.Instr = func(f *ssa.Function, in ssa.Instruction, q int) (StateSet, bool) {
+				call, ok := in.(*ssa.Call)
+				if !ok {
+					return 0, false
+				}
+				if cal := staticCallee(&call.Call); cal != nil && (fname(cal) == "RemoveAt" || fname(cal) == "Pop") && cal.Signature.Recv() != nil {
+					return ss(1), true
+				}
+				if bi, ok := call.Call.Value.(*ssa.Builtin); ok && bi.Name() == "delete" && len(call.Call.Args) == 2 && call.Call.Args[1] == ssa.Value(fn.Params[1]) {
+					if q == 1 {
+						return ss(2), true
+					}
+				}
+				return 0, false
+			}
+			okAll := true
+			var badRet *ssa.Return
+			for _, e := range pfr.Exits(fn, ss(0)) {
+				if e.States.has(1) {
+					okAll = false
+					badRet = e.Ret
+				}
+			}
+			pos := fn.Pos()
+			if badRet != nil {
+				pos = retPos(badRet)
+			}
+			r.ok(okAll, "xheap.PriorityQueue.Remove|delete-on-every-removing-path", pos, "a path takes an item out of the inner heap and returns without delete(m, k): the key stays mapped to an index that now belongs to another item")
+		}
 	} else {
 		r.undecided("xheap.PriorityQueue.Remove|missing", token.NoPos, "anchor not found")
 	}
@@ -1233,3 +1267,39 @@ func pqKeyLookup(tuple ssa.Value, key ssa.Value) bool {
 	})
 	return nRet == 1 && good
 }
+
+// C05.update-stores: UpdateAt(i, item) puts item at index i on EVERY path before it restores the order: a fast path that returns
+// when the new item "orders the same" as the old one keeps the old item - Priority(k) then reports the old priority for a
+// priority that ties without being identical.
+var _ = late(func() {
+	p := properties["C05"]
+	p.Rules = append(p.Rules, &Rule{ID: "C05.update-stores", Floor: 1, Clause: "every path through heap.UpdateAt stores the item it was given at index i (typestate over its returns): no fast path may return with the old item still in place",
+		Run: func(c *Ctx, r *R) {
+			fn := heapFn(c, "UpdateAt")
+			if fn == nil || len(fn.Params) < 3 {
+				r.undecided("heap.Heap.UpdateAt|missing", token.NoPos, "anchor not found")
+				return
+			}
+			iP, itemP := fn.Params[1], fn.Params[2]
+			pf := &PF{N: 2}
+			pf.Instr = func(f *ssa.Function, in ssa.Instruction, q int) (StateSet, bool) {
+				st, ok := in.(*ssa.Store)
+				if !ok {
+					return 0, false
+				}
+				ia, ok := st.Addr.(*ssa.IndexAddr)
+				if ok && resolveVal(ia.Index) == ssa.Value(iP) && resolveVal(st.Val) == ssa.Value(itemP) {
+					return ss(1), true
+				}
+				return 0, false
+			}
+			n := 0
+			for _, e := range pf.Exits(fn, ss(0)) {
+				n++
+				r.ok(e.States == ss(1), "heap.Heap.UpdateAt|stores-item#"+itoa(n), retPos(e.Ret), "UpdateAt returns on a path that has not stored the new item at index i: the heap keeps the old item (and its old priority)")
+			}
+			if n == 0 {
+				r.undecided("heap.Heap.UpdateAt|returns", fn.Pos(), "no return found")
+			}
+		}})
+})
